@@ -69,14 +69,14 @@ PROPERTY_META["C07"] = {
 # ---------------------------------------------------------------- C10
 TABLE["C10"] = [
     H("c10_create", functions=["PokerCard::create", "CardRank::{bits,number,prime,shift8}", "CardSuit::binary_signature", "PokerCard::filter"],
-      domain="all 14 x 5 (CardRank, CardSuit) pairs incl. the blank members", bound="whole domain", draws="r:u8, s:u8"),
+      domain="all 14 x 5 (CardRank, CardSuit) pairs incl. the blank members", bound="whole domain", draws="r:u8, s:u8, r0:u8, s0:u8 (priming call)"),
     H("c10_constants_and_deck", functions=["CardNumber::* (52 constants)", "deck::POKER_DECK", "Deck::arr"],
       domain="all 52 (rank, suit); all 52 deck indexes", bound="whole domain", draws="r:u8, s:u8, i:u8"),
     H("c10_accessors", functions=["get_card_rank", "get_card_suit", "get_rank_bit", "get_rank_flag", "get_rank_prime", "get_suit_bit",
                                  "get_suit_flag", "get_rank_char", "get_suit_char", "get_suit_letter", "is_blank", "as_u32",
                                  "CardSuit::binary_signature"],
       domain="all 52 cards, plus blank", bound="whole domain", draws="r:u8, s:u8"),
-    H("c10_filter", functions=["CardNumber::filter", "PokerCard::filter"], domain="every u32 word (2^32)", bound="whole input type", draws="w:u32"),
+    H("c10_filter", functions=["CardNumber::filter", "PokerCard::filter"], domain="every u32 word (2^32), after a priming call on another arbitrary word", bound="whole input type", draws="w0:u32, w:u32"),
 ]
 PROPERTY_META["C10"] = {
     "claim": "constants, construction and deck equal the layout formula S1; accessors read the S1 fields; the filter passes exactly the 52 S1 words out of 2^32",
@@ -86,8 +86,8 @@ PROPERTY_META["C10"] = {
 
 # ---------------------------------------------------------------- C14
 TABLE["C14"] = [
-    H("c14_word_to_bit", functions=["BC64::from_ckc", "PokerCard::from_binary_card"], domain="every u32 word", bound="whole input type", draws="w:u32"),
-    H("c14_bit_to_word", functions=["PokerCard::from_binary_card", "BC64::from_ckc"], domain="every u64 value (2^64)", bound="whole input type", draws="b:u64"),
+    H("c14_word_to_bit", functions=["BC64::from_ckc", "PokerCard::from_binary_card"], domain="every u32 word, after a priming call on another arbitrary word (history of length 2)", bound="whole input type", draws="w0:u32, w:u32"),
+    H("c14_bit_to_word", functions=["PokerCard::from_binary_card", "BC64::from_ckc"], domain="every u64 value (2^64), after a priming call on another arbitrary value", bound="whole input type", draws="b0:u64, b:u64"),
     H("c14_constants", functions=["BC64::DECK", "52 BC64 card constants", "BC64::{ALL,OVERFLOW,BLANK}", "POKER_DECK"],
       domain="all 52 cards; all 52 deck indexes", bound="whole domain", draws="r:u8, s:u8, i:u8"),
 ]
@@ -158,7 +158,7 @@ TABLE["C15"] = [
     H("c15_set_ops", functions=["fold_in", "has", "number_of_cards", "is_single_card", "BC64::is_valid", "as_u64"], domain="all pairs of u64",
       bound="whole input type", draws="b,c:u64"),
     H("c15_peel_step", functions=["<u64 as BC64>::peel"], domain="every u64 set (one step from an arbitrary state = every history)",
-      bound="unwind 53 covers the 52-entry deck scan", draws="b:u64"),
+      bound="unwind 53 covers the 52-entry deck scan", draws="b0:u64 (priming), b:u64"),
     H("c15_peel_sequence", functions=["<u64 as BC64>::peel"], domain="every two-card set, four peels", bound="unwind 53", draws="b:u64"),
 ]
 PROPERTY_META["C15"] = {
@@ -191,7 +191,7 @@ PROPERTY_META["C17"] = {
 
 # ---------------------------------------------------------------- C18
 TABLE["C18"] = [
-    H("c18_deck", functions=["Deck::get", "Deck::len", "POKER_DECK.arr"], domain="every usize index", bound="whole input type", draws="i:usize, j:usize"),
+    H("c18_deck", functions=["Deck::get", "Deck::len", "POKER_DECK.arr"], domain="every usize index, after a priming call on another arbitrary index", bound="whole input type", draws="i0:usize, i:usize, j:usize"),
     H("c18_presets", functions=["Two::{AA,AK,AKs,AKo,AQs,AQo}"], domain="all suit pairs (every described combination) and every table index",
       bound="whole domain; unwind 18", draws="s1,s2:u8, i:u8"),
     H("c18_slot_tables", functions=["Four::OMAHA_PERMUTATIONS", "Six::FIVE_CARD_PERMUTATIONS", "Seven::FIVE_CARD_PERMUTATIONS"],
